@@ -155,7 +155,7 @@ def _check(prop, tier, seed, py, modname, plan, scratch, ev_path, t0):
             tasks.append({'kind': 'slice', 'slice': s, 'twin': twin, 'out': out,
                           'cmd': [py, '-m', 'vfw.worker', s.get('module', modname), s.get('func', 'check'), str(ct), str(pt), out],
                           'env': _child_env(s.get('params', {}), twin=twin, seed=seed, hashseed=hseed),
-                          'kill_after': ct * 2 + 60, 'order': (0 if not twin else 1, -ct if tier == 'quick' else ct)})
+                          'kill_after': ct * 2 + 60, 'order': (0 if not twin else 1, -ct) if tier == 'quick' else (ct, 0 if not twin else 1)})
     for j in plan.get('lemmas', []):
         n += 1
         out = os.path.join(scratch, 'r%04d.json' % n)
